@@ -40,7 +40,7 @@ COMPONENTS = {
     "real": ["Plan.emit_event / run_step / abort", "DefaultOptimizerStep", "DefaultEvaluatorStep", "EnsembleOptimizer", "tracker handler", "OptimizerContext observers"],
     "stub": ["recording handler plug-in (two per plan level)", "recording observers", "SimEvaluator", "sim/scripted optimizer"],
 }
-PROBES = ["baseline_runs", "abort_at_event", "abort_in_evaluator", "abort_at_step_start_event", "abort_at_step_finished_event",
+PROBES = ["child_plan", "baseline_runs", "abort_at_event", "abort_in_evaluator", "abort_at_step_start_event", "abort_at_step_finished_event",
           "abort_by_handler", "abort_by_observer", "abort_in_inner_plan", "abort_by_outer_handler_on_inner_event",
           "nested_plan", "multi_step_plan", "unmatched_start_allowed", "further_step_refused", "too_few_in_run", "max_functions_in_run"]
 
@@ -50,7 +50,7 @@ STEP_END = {"optimizer": EventType.FINISHED_OPTIMIZER_STEP, "evaluator": EventTy
 
 def _group_scenario(gseed: int) -> dict:
     rng = random.Random(gseed)
-    shape = rng.choice(["single", "single", "evalstep", "multi", "multi", "nested", "nested"])
+    shape = rng.choice(["single", "single", "evalstep", "multi", "multi", "nested", "nested", "child"])
     nv = rng.randint(2, 3)
     scn = gen.base_scenario(rng, PROP, nv=nv, nr_max=2, no_max=2, nc_max=1, npert_max=2, filters=(rng.random() < 0.2),
                             stddev=False, transforms=(rng.random() < 0.2), linear=False, mask=False, inject_p=1.0,
@@ -68,6 +68,10 @@ def _group_scenario(gseed: int) -> dict:
         steps = [{"kind": rng.choice(["optimizer", "optimizer", "evaluator"]), "cfg": 0} for _ in range(rng.randint(2, 3))]
         if not any(s["kind"] == "optimizer" for s in steps):
             steps[0]["kind"] = "optimizer"
+    elif shape == "child":
+        # a plan created with Plan(context, parent=top) whose step the user runs directly: the top-level plan is its
+        # ancestor (it gets the events) and must be latched by an abort in the child
+        steps = [{"kind": "optimizer", "cfg": 0, "child": True}]
     elif shape == "nested":
         inner = copy.deepcopy(cfg)
         mask = [i == 0 for i in range(nv)] if rng.random() < 0.5 else [i != 0 for i in range(nv)]
@@ -267,6 +271,8 @@ def execute(scn: dict) -> dict:
     member = scn.get("member", 0)
     abort = scn.get("abort")
     pts = _abort_points(base)
+    if scn["shape"] == "child":
+        probe("child_plan")
     if scn["shape"] == "nested":
         probe("nested_plan")
     if scn["shape"] == "multi":
